@@ -604,11 +604,16 @@ func r02_5(c *Ctx, rule string) {
 	x := c.explorer(hc)
 	base := c.name(hc) + "/request"
 	// directory
+	dirAs := map[string]bool{}
 	for _, call := range c.P.CallsTo(hc, "(io/fs.FileInfo).IsDir") {
 		if cl, ok := call.(*ssa.Call); ok && eng.Strip(cl.Call.Value) == ssa.Value(hc.Params[3]) {
-			c.ObUnreachable(rule, base+"/not-dir", hc, map[string]bool{x.KeyAtEntry(cl): true}, isReq, "a content request", "the entry is a directory")
-			break
+			dirAs[x.KeyAtEntry(cl)] = true
 		}
+	}
+	if len(dirAs) == 0 {
+		c.R.Fail(rule, base+"/not-dir", c.P.Pos(hc.Pos()), "HandleChange never asks fi.IsDir(): directories fall through to the regular-file arm")
+	} else {
+		c.ObUnreachable(rule, base+"/not-dir", hc, dirAs, isReq, "a content request", "the entry is a directory")
 	}
 	for _, t := range []struct {
 		name string
